@@ -285,6 +285,7 @@ class Stubs:
                 'get_subtypes': lambda self, schema: tuple(self.x_subs),
                 'get_name': lambda self, schema: QName(self.x_name),
                 'get_is_persistent': lambda self, schema: self.x_persistent,
+                'material_type': lambda self, schema: (schema, self),
             }
             if named:
                 ns['is_named'] = lambda self, schema: self.x_names is not None
@@ -392,7 +393,7 @@ class World:
             self.objs.append(self.objtype(f'default::T{i}'))
         if rng.random() < 0.7:
             comps = rng.sample(self.objs, 2)
-            u = self.objtype('(' + ' | '.join(c.x_name for c in comps) + ')')
+            u = self.objtype('(' + ' or '.join(c.x_name for c in comps) + ')')   # no '|' (name mangling char)
             if rng.random() < 0.7:
                 u.x_union = comps
             else:
@@ -949,11 +950,12 @@ def l2_compile(ctx: core.Ctx, n_queries: int) -> dict:
         except Exception as e:      # noqa: BLE001
             rec['in'].append((text, exp, pv, b'', b'', f'{type(e).__name__}: {e}'[:300], step))
 
-    corpus = [(q['text'], tup(q['expect']), 'corpus') for q in load_corpus()['queries']]
+    corpus = [(q['text'], tup(q['expect']), 'corpus' + (':' + q['key'] if q.get('key') else ''))
+              for q in load_corpus()['queries']]
     probes, pparams = spec.probes()
     for qi, (text, exp, colon) in enumerate(corpus + systematic + queries + [(t, e, 'probe') for t, e in probes]):
         fixed = qi < len(corpus) + len(systematic)
-        for pv in (pvs if colon in ('corpus', 'probe') else sys_pvs if fixed else pvs):
+        for pv in (pvs if str(colon).startswith('corpus') or colon == 'probe' else sys_pvs if fixed else pvs):
             opt = (False, False) if fixed else rng.choice([(False, False), (False, False), (True, False), (False, True)])
             if not compile_out(text, exp, colon, pv, opt, 0):
                 break
@@ -961,10 +963,10 @@ def l2_compile(ctx: core.Ctx, n_queries: int) -> dict:
         for pv in pvs:
             compile_in(text, exp, pv, 0)
     # known root causes with their witnesses (corpus): pairs of queries that must not share an id
-    for pair in load_corpus()['id_clash_pairs']:
+    for pi_, pair in enumerate(load_corpus()['id_clash_pairs']):
         for text in pair['queries']:
             for pv in pvs:
-                compile_out(text, tup(pair['expect']), 'pair:' + pair['key'], pv, (False, False), 0)
+                compile_out(text, tup(pair['expect']), f'pair:{pair["key"]}#{pi_}', pv, (False, False), 0)
     # SQL row descriptors: the REAL Compiler.compile_sql_descriptors on column lists as PostgreSQL's
     # RowDescription gives them (`select 1 as a, 'x' as b` / `select 1 as a, 2 as a`)
     rec['sql'] = []
@@ -1618,12 +1620,16 @@ class Run:
                 facts = all_facts[step]
                 rp = {'query': text, 'protocol': list(pv), 'inline_typenames': opt[0], 'inline_typeids': opt[1]}
                 okey = 'oracle:l2'
+                rootkey = colon[7:] if isinstance(colon, str) and colon.startswith('corpus:') else None
                 if step:
                     rp['history'] = {'step': step, 'kind': facts['kind'], 'ddl_applied_in_this_process': facts['ddl']}
                     okey = f'oracle:l2-history:{facts["kind"]}'
                     self.count('L2:after-history:' + facts['kind'])
                 if err is not None:
                     self.count('L2:compile-error')
+                    if rootkey:
+                        ctx.fail(rootkey, 'accepted query dies in the compiler', rp | {'error': err})
+                        continue
                     ctx.fail(f'oracle:l2-compile:{text}', 'generated query rejected / compiler failed',
                              rp | {'error': err}, no_input=True)
                     continue
@@ -1666,8 +1672,15 @@ class Run:
                         problems += l2_reid(got, st, U, None)
                     if v2 and not dups and walk_frames(body) != len({u.id for u in subtrees(got)}):
                         problems.append('length prefixes do not frame one block per distinct descriptor')
+                if v2 and got is not None:
+                    mg = mangled_collection_name(got, exp)
+                    if mg:
+                        ctx.fail('collection-name-mangled', 'the protocol >= 2.0 descriptor of a collection type carries '
+                                 'the internal mangled name instead of the schema type name (what schema::Type.name '
+                                 'reflects: Collection.get_displayname_static)',
+                                 rp | {'descriptor_name': mg[0], 'schema_type_name': mg[1]})
                 for pr in problems:
-                    ctx.fail(f'{okey}:{pv}:{text}', 'compiled query: ' + pr,
+                    ctx.fail(rootkey or f'{okey}:{pv}:{text}', 'compiled query: ' + pr,
                              rp | {'out_type_data': data.hex(), 'decoded': rpn(got) if got else None,
                                    'expected': repr(exp)})
                 # across schema versions (observation, see notes): same id, other bytes
@@ -1762,15 +1775,16 @@ class Run:
         # known root causes (corpus witnesses): the two queries of a pair must not share an id
         done = set()
         for (key, pv), items in sorted(pairs.items()):
+            tag, key = key, key.split('#')[0]
             if len(items) == 2 and items[0][2] == items[1][2] and items[0][1] != items[1][1] and key not in done:
                 done.add(key)
-                ctx.fail('oracle:corpus-pair:' + key, 'two accepted queries over one schema: one out_type_id, '
+                ctx.fail(key, 'two accepted queries over one schema: one out_type_id, '
                          'different out_type_data',
                          {'protocol': list(pv), 'out_type_id': items[0][2].hex(),
                           'query_1': items[0][0], 'out_type_data_1': items[0][1].hex(),
                           'query_2': items[1][0], 'out_type_data_2': items[1][1].hex(),
                           'per_protocol': {str(k[1]): (v[0][2] == v[1][2], v[0][1] == v[1][1])
-                                           for k, v in pairs.items() if k[0] == key and len(v) == 2}})
+                                           for k, v in pairs.items() if k[0] == tag and len(v) == 2}})
             self.count('L2:corpus-pair:' + key)
         # SQL row descriptors
         if rec.get('sql_error'):
@@ -1852,6 +1866,40 @@ class Run:
             if ok and i == len(data):
                 return k
         return None
+
+
+def internal_name(exp):
+    """the generated (mangled) name of the collection type of an expectation, as
+    edb/schema/types.py::generate_name builds it; None when not determined"""
+    from edb.schema import name as s_name
+    k = exp[0]
+    if k == 'S':
+        return exp[1]
+    if k in ('A', 'R'):
+        sub = internal_name(exp[1])
+        return None if sub is None else {'A': 'array', 'R': 'range'}[k] + '<' + s_name.mangle_name(sub) + '>'
+    if k == 'T':
+        subs = [internal_name(t) for t in exp[1]]
+        return None if None in subs else 'tuple<' + s_name.mangle_name(', '.join(subs)) + '>'
+    if k == 'NT':
+        subs = [internal_name(t) for _n, t in exp[1]]
+        return None if None in subs else 'tuple<' + s_name.mangle_name(
+            ', '.join(f'{n}:{st}' for (n, _t), st in zip(exp[1], subs))) + '>'
+    return None
+
+
+def mangled_collection_name(n: Node, exp):
+    """(descriptor name, schema type name) when the root collection descriptor carries the
+    internal mangled name and that differs from the name the schema reflects"""
+    from edb.schema import name as s_name
+    if exp[0] not in ('A', 'R', 'T', 'NT') or n.meta is None:
+        return None
+    internal = internal_name(exp)
+    got = n.meta[0].decode()
+    if internal is None or got != internal:
+        return None
+    shown = s_name.unmangle_name(internal)
+    return (got, shown) if shown != got else None
 
 
 def exp_has_dups(exp) -> bool:
